@@ -263,10 +263,20 @@ func (g *gWorld) applyExchange(op *gOp, ent *gEnt, targetOK func(int) bool) stri
 		}
 		fg := ecs.All(remIDs...).Without(g.mapIDs(exc)...)
 		fc := ecs.All(remIDs...).Without(g.mapIDs(exc)...)
-		cg := ex.ExchangeBatch(&fg)
-		cc := g.Wc.Batch().Exchange(&fc, addIDs, remIDs)
+		withT := relAdd >= 0 && op.T != -2 && targetOK(op.T)
+		var cg, cc int
+		if withT {
+			// with a target for the relation component that is added
+			g.exchWithRelation(ex, relAdd)
+			cg = ex.ExchangeBatch(&fg, g.handle(op.T))
+			cc = g.Wc.Relations().ExchangeBatch(&fc, addIDs, remIDs, g.ids[relAdd], g.handle(op.T))
+			g.label("Exchange.ExchangeBatch with a target")
+		} else {
+			cg = ex.ExchangeBatch(&fg)
+			cc = g.Wc.Batch().Exchange(&fc, addIDs, remIDs)
+		}
 		if cg != cc {
-			return fmt.Sprintf("Exchange.ExchangeBatch reports %d, Batch.Exchange %d", cg, cc)
+			return fmt.Sprintf("Exchange.ExchangeBatch (with target: %v) reports %d, its ID-based equivalent %d", withT, cg, cc)
 		}
 		for _, e := range g.ents {
 			if !e.alive || !g.entHasAll(e, rem) || !g.entHasNone(e, exc) {
@@ -280,6 +290,9 @@ func (g *gWorld) applyExchange(op *gOp, ent *gEnt, targetOK func(int) bool) stri
 			}
 			if relIn(rem) >= 0 || relAdd >= 0 {
 				e.target = -1
+			}
+			if withT && op.T >= 0 {
+				e.target = op.T
 			}
 		}
 	}
@@ -454,6 +467,23 @@ func (g *gWorld) applyFilter(op *gOp, ad *gAdapter, targetOK func(int) bool) str
 			f.Without(cs...)
 			scribbleComps(cs)
 			st.without = append(st.without, ts...)
+		case "withrel":
+			if st.registered || st.relType >= 0 {
+				continue
+			}
+			has := false
+			for _, t := range st.with {
+				has = has || isRelType(t)
+			}
+			if has || ad.HasRel {
+				continue
+			}
+			rt := tGR0 + s.T[0]%2
+			cs := compsOf([]int{rt})
+			f.With(cs...)
+			scribbleComps(cs)
+			st.with = append(st.with, rt)
+			g.label("relation component added through With")
 		case "exclusive":
 			if st.registered || len(st.without) > 0 {
 				continue
@@ -468,6 +498,11 @@ func (g *gWorld) applyFilter(op *gOp, ad *gAdapter, targetOK func(int) bool) str
 			if rt < 0 {
 				for _, t := range ad.Types {
 					if isRelType(t) && !st.optional[t] {
+						rt = t
+					}
+				}
+				for _, t := range st.with {
+					if isRelType(t) {
 						rt = t
 					}
 				}
@@ -519,6 +554,22 @@ func (g *gWorld) applyFilter(op *gOp, ad *gAdapter, targetOK func(int) bool) str
 			}
 			if msg := check(q, g.coreFilter(st, s.E, hasCall), fmt.Sprintf("query %d", queriesBuilt)); msg != "" {
 				return msg
+			}
+			if len(s.T) > 0 && s.T[0]%3 == 0 {
+				// FilterN.Filter hands out the ecs.Filter the query is built from: used with World.Query
+				// directly it selects the same entities
+				var ef ecs.Filter
+				if hasCall {
+					ef = f.Filter(g.Wg, g.handle(s.E))
+				} else {
+					ef = f.Filter(g.Wg)
+				}
+				got := func() []ecs.Entity { qq := g.Wg.Query(ef); return entitySet(&qq) }()
+				want := func() []ecs.Entity { qq := g.Wg.Query(g.coreFilter(st, s.E, hasCall)); return entitySet(&qq) }()
+				if fmt.Sprint(got) != fmt.Sprint(want) {
+					return fmt.Sprintf("%s: the filter returned by Filter(call-time target: %v) selects %v, the equivalent core filter %v (builder: %s)", name, hasCall, got, want, st.describe())
+				}
+				g.label("FilterN.Filter used with World.Query")
 			}
 			if queriesBuilt > 0 {
 				g.nontri = true
@@ -770,6 +821,10 @@ func (g *gWorld) genGenericOp(rt *rapid.T, focus int) gOp {
 		sk := []string{"optional", "with", "without", "exclusive", "exclusive", "query", "query", "query", "register", "unregister", "late"}
 		if ad.HasRel {
 			sk = append(sk, "relation", "relation", "relation", "relation", "two", "two", "two", "query", "query", "query")
+		} else if rapid.IntRange(0, 2).Draw(rt, "withrel?") == 0 {
+			// the relation component is not among the declared types (also arity 0): it comes in through
+			// With, and WithRelation then names it
+			sk = append(sk, "withrel", "withrel", "withrel", "relation", "relation", "relation", "two", "two", "query", "query")
 		}
 		for i := 0; i < ns; i++ {
 			s := gStep{K: rapid.SampledFrom(sk).Draw(rt, "sk"), E: g.pickTargetIdx(rt, true), F: g.pickTargetIdx(rt, false)}
@@ -894,7 +949,7 @@ func TestC18(t *testing.T) {
 	runGenericProp(t, &genericProp{ID: "C18", Test: "TestC18",
 		// an ID-based call that accepts illegal arguments is C10's business; the case ends there
 		Owns: func(msg string) bool { return !strings.Contains(msg, "HARNESS: the ID-based equivalent") },
-		Rule: fmt.Sprintf("generated code instantiates MapN/FilterN/QueryN for every arity 0-12 in natural order, reversed order and with the relation type at a varying position (%d instantiations over 17 static types), plus Map, Exchange; generated op histories drive a world Wg through the generic calls and a lock-step world Wc through the ID-based calls the documentation names as equivalent (creation with/without values and targets, batch creation, Add/Assign/Remove, batch variants, RemoveEntities(exclusive), Map.Set/SetRelation/SetRelationBatch(Q), Exchange.*; MapN built with a relation component outside its own components: Add/Remove/RemoveBatch(Q) with a target); after every op both worlds are compared completely (alive, masks, every component's bytes, relation targets, returned handles and counts). MapN.Get/GetUnchecked and QueryN.Get must be pointer-identical, position by position, to World.Get of the declared type (nil <=> absent). Filter scripts call Optional/With/Without/Exclusive/WithRelation(target?) before and BETWEEN queries, Register/Unregister, queries with a call-time target, and two queries open at once with different targets; 15 classes of illegal calls (removed entities and targets, present/absent components, counts <= 0, relation calls on non-relation or missing components) must panic exactly like their ID-based equivalents and change nothing; every query's entity set, Count and Relation() must equal those of the core MaskFilter/RelationFilter built from the builder state at query-build time; non-trivial = a filter queried again after its builder was modified or used, two open queries, an optional component absent on a visited entity, or a Get on arity >= 2; every adapter is exercised in every run (round-robin)", len(gAdapters))})
+		Rule: fmt.Sprintf("generated code instantiates MapN/FilterN/QueryN for every arity 0-12 in natural order, reversed order and with the relation type at a varying position (%d instantiations over 17 static types), plus Map, Exchange; generated op histories drive a world Wg through the generic calls and a lock-step world Wc through the ID-based calls the documentation names as equivalent (creation with/without values and targets, batch creation, Add/Assign/Remove, batch variants, RemoveEntities(exclusive), Map.Set/SetRelation/SetRelationBatch(Q), Exchange.*; MapN built with a relation component outside its own components: Add/Remove/RemoveBatch(Q) with a target); after every op both worlds are compared completely (alive, masks, every component's bytes, relation targets, returned handles and counts). MapN.Get/GetUnchecked and QueryN.Get must be pointer-identical, position by position, to World.Get of the declared type (nil <=> absent). Filter scripts call Optional/With/Without/Exclusive/WithRelation(target?) before and BETWEEN queries, Register/Unregister, queries with a call-time target, and two queries open at once with different targets; 16 classes of illegal calls (removed entities and targets, present/absent components, counts <= 0, relation calls on non-relation or missing components) must panic exactly like their ID-based equivalents and change nothing; every query's entity set, Count and Relation() must equal those of the core MaskFilter/RelationFilter built from the builder state at query-build time; non-trivial = a filter queried again after its builder was modified or used, two open queries, an optional component absent on a visited entity, or a Get on arity >= 2; every adapter is exercised in every run (round-robin)", len(gAdapters))})
 }
 
 // scribbleComps overwrites a component list after it was passed to a builder call.
